@@ -399,3 +399,30 @@ Proof. exact (conj toy_laws (conj toy_no_nmi_at_end comp_stream_refines_toy)). Q
 Print Assumptions C11_comp_stream_reader_refines.
 Print Assumptions C11_comp_stream_agrees_whole_block.
 Print Assumptions C11_comp_stream_hyps_satisfiable.
+
+(* ---------- Tie A level 1, work package readerT (tools/src2v3_reader.py -> gen/Src3d.v): RawLayerReader re-translated from the source, statement by statement, IS RawLayer.v's (theories/SrcTie3Raw.v) ---------- *)
+From MLA Require SrcTie3Raw.
+Check SrcTie3Raw.raw_seek_src.
+Theorem C11_tie_raw_seek_src : ltac:(let t := type of SrcTie3Raw.raw_seek_src in exact t).
+Proof. exact SrcTie3Raw.raw_seek_src. Qed.
+Print Assumptions C11_tie_raw_seek_src.
+Check SrcTie3Raw.raw_read_src.
+Theorem C11_tie_raw_read_src : ltac:(let t := type of SrcTie3Raw.raw_read_src in exact t).
+Proof. exact SrcTie3Raw.raw_read_src. Qed.
+Print Assumptions C11_tie_raw_read_src.
+Check SrcTie3Raw.raw_reset_src.
+Theorem C11_tie_raw_reset_src : ltac:(let t := type of SrcTie3Raw.raw_reset_src in exact t).
+Proof. exact SrcTie3Raw.raw_reset_src. Qed.
+Print Assumptions C11_tie_raw_reset_src.
+Check SrcTie3Raw.raw_new_src.
+Theorem C11_tie_raw_new_src : ltac:(let t := type of SrcTie3Raw.raw_new_src in exact t).
+Proof. exact SrcTie3Raw.raw_new_src. Qed.
+Print Assumptions C11_tie_raw_new_src.
+Check SrcTie3Raw.raw_stream_src.
+Theorem C11_tie_raw_stream_src : ltac:(let t := type of SrcTie3Raw.raw_stream_src in exact t).
+Proof. exact SrcTie3Raw.raw_stream_src. Qed.
+Print Assumptions C11_tie_raw_stream_src.
+Check SrcTie3Raw.translated_raw_nonvacuous.
+Theorem C11_tie_translated_raw_nonvacuous : ltac:(let t := type of SrcTie3Raw.translated_raw_nonvacuous in exact t).
+Proof. exact SrcTie3Raw.translated_raw_nonvacuous. Qed.
+Print Assumptions C11_tie_translated_raw_nonvacuous.
